@@ -1298,12 +1298,19 @@ impl Compiler {
         let mut static_fields: Vec<&ClassProperty> = Vec::new();
         let mut instance_auto_accessors: Vec<&ClassProperty> = Vec::new();
         let mut static_auto_accessors: Vec<&ClassProperty> = Vec::new();
-        let mut static_blocks: Vec<&crate::ast::BlockStatement> = Vec::new();
         let mut instance_private_fields: Vec<&ClassProperty> = Vec::new();
         let mut static_private_fields: Vec<&ClassProperty> = Vec::new();
         let mut instance_private_methods: Vec<&ClassMethod> = Vec::new();
         let mut static_private_methods: Vec<&ClassMethod> = Vec::new();
         let mut private_members = FxHashMap::default();
+        // Static fields, static private fields and static blocks, in source order: they are
+        // evaluated in that order once the class itself exists
+        enum StaticElement<'a> {
+            Field(&'a ClassProperty),
+            PrivateField(&'a ClassProperty),
+            Block(&'a crate::ast::BlockStatement),
+        }
+        let mut static_elements: Vec<StaticElement> = Vec::new();
 
         for member in &class.body.members {
             match member {
@@ -1346,6 +1353,7 @@ impl Compiler {
                         );
                         if prop.static_ {
                             static_private_fields.push(prop);
+                            static_elements.push(StaticElement::PrivateField(prop));
                         } else {
                             instance_private_fields.push(prop);
                         }
@@ -1360,13 +1368,14 @@ impl Compiler {
                         // Regular public field
                         if prop.static_ {
                             static_fields.push(prop);
+                            static_elements.push(StaticElement::Field(prop));
                         } else {
                             instance_fields.push(prop);
                         }
                     }
                 }
                 ClassMember::StaticBlock(block) => {
-                    static_blocks.push(block);
+                    static_elements.push(StaticElement::Block(block));
                 }
             }
         }
@@ -1496,23 +1505,18 @@ impl Compiler {
             self.compile_field_decorators(dst, field, true)?;
         }
 
-        // Initialize static fields (on the class constructor itself)
-        for field in &static_fields {
-            self.compile_static_field_initializer(dst, field)?;
+        // Define static private methods
+        for method in &static_private_methods {
+            self.compile_private_method(dst, method, true, class_brand)?;
         }
 
-        // Define instance auto-accessors (on prototype)
-        for accessor in &instance_auto_accessors {
-            self.compile_auto_accessor(dst, accessor, false)?;
+        // Define instance private methods (store on class for later installation on instances)
+        for method in &instance_private_methods {
+            self.compile_private_method(dst, method, false, class_brand)?;
         }
 
-        // Define static auto-accessors (on class constructor)
-        for accessor in &static_auto_accessors {
-            self.compile_auto_accessor(dst, accessor, true)?;
-        }
-
-        // Before running static blocks, bind the class name so code in static blocks
-        // can reference the class by name (e.g., `Config.value = 42`)
+        // Bind the class name before any static initializer or static block runs, so that
+        // they can reference the class by name (`static inst = new C()`, `Config.value = 42`).
         // Only create inner binding for explicit class names, not inferred names.
         // For `var C = class {}`, the binding is handled by the var declaration.
         // For `class C {}` or `var x = class C {}`, C needs an inner immutable binding.
@@ -1528,24 +1532,30 @@ impl Compiler {
             });
         }
 
-        // Execute static blocks with `this` bound to the class constructor
-        for block in &static_blocks {
-            self.compile_static_block(dst, block)?;
+        // Define instance auto-accessors (on prototype)
+        for accessor in &instance_auto_accessors {
+            self.compile_auto_accessor(dst, accessor, false)?;
         }
 
-        // Initialize static private fields (on the class constructor itself)
-        for field in &static_private_fields {
-            self.compile_static_private_field_initializer(dst, field, class_brand)?;
+        // Define static auto-accessors (on class constructor)
+        for accessor in &static_auto_accessors {
+            self.compile_auto_accessor(dst, accessor, true)?;
         }
 
-        // Define static private methods
-        for method in &static_private_methods {
-            self.compile_private_method(dst, method, true, class_brand)?;
-        }
-
-        // Define instance private methods (store on class for later installation on instances)
-        for method in &instance_private_methods {
-            self.compile_private_method(dst, method, false, class_brand)?;
+        // Static fields (public and private, on the class constructor itself) and static
+        // blocks (with `this` bound to the class constructor), in source order
+        for element in &static_elements {
+            match element {
+                StaticElement::Field(field) => {
+                    self.compile_static_field_initializer(dst, field)?;
+                }
+                StaticElement::PrivateField(field) => {
+                    self.compile_static_private_field_initializer(dst, field, class_brand)?;
+                }
+                StaticElement::Block(block) => {
+                    self.compile_static_block(dst, block)?;
+                }
+            }
         }
 
         // Pop class context
